@@ -13,9 +13,9 @@ in `FinishedState` with `NoError`; `r.acc` = what the receiver's output device a
 counter), `r.fed` = the bytes the running MD5 was fed.  `initDev dev …` starts a transfer into a device that may take
 fewer bytes per `write()` than offered, run full, or fail (`Dev`); `init … = initDev .unlimited …` (QBuffer, healthy
 file).  The code calls `write()` once per block and never retries; a failed or short write ends the job with
-`FileAccessError` (repo commit 705738b), leaving in the device whatever it took; counter and hash only see complete
+`FileAccessError` (repo commit 675e9c1), leaving in the device whatever it took; counter and hash only see complete
 blocks (`done = |fed|`).  The theorems below are about `acc`.  `timeout` is the in-band inactivity timer (repo commit
-afd7dc9) firing: every job in `TransferState` ends with `ProtocolError`.
+72eab57) firing: every job in `TransferState` ends with `ProtocolError`.
 
 Counters: both jobs keep `quint16 ibbSequence` (since repo commit 49cbe2e; it was `int` before, which made every
 transfer of more than 65536 blocks fail — the former `C19_defect_seq_wrap`).  The model uses `UInt16` for both
@@ -204,7 +204,7 @@ announced, every data block `j`).  Let ONE of `drop`, `swap`, `earlyClose`, `wro
 block `j`, deliver what the honest exchange still produces (`n ≥ 2` deliveries) and let the inactivity interval elapse
 (`timeout`): both jobs are finished, nothing is left in the channel, and the receiving job's error is
 `FileCorruptError` (drop, swap, earlyClose, wrongSid: the byte count is short when the sender's `<close/>` arrives) or
-`ProtocolError` (wrongSender, lose: nobody ever answers, the timer of repo commit afd7dc9 ends both jobs). -/
+`ProtocolError` (wrongSender, lose: nobody ever answers, the timer of repo commit 72eab57 ends both jobs). -/
 theorem single_fault_ends_in_error (H : List UInt8 → List UInt8) (bsS bsR : Nat) (hash : Option (List UInt8))
     (data : List UInt8) (hb : 0 < bsS) (hle : bsS ≤ bsR) (j : Nat) (hblk : j * bsS < data.length)
     (f : Op) (hf : f ∈ [Op.drop, .swap, .earlyClose, .wrongSid, .wrongSender, .lose]) (n : Nat) (hn : 2 ≤ n) :
@@ -250,7 +250,7 @@ theorem single_fault_ends_in_error (H : List UInt8 → List UInt8) (bsS bsR : Na
 For every file, block size and data block `j`: if block `j` is lost without any answer (`lose`), or delivered under
 another sender JID so that the answer goes elsewhere (`wrongSender`), then after ANY number of further honest
 deliveries (no `timeout`) both jobs are still in `TransferState` with nothing in the channel; and as soon as the stream
-is closed (`<close/>` arrives) the receiving job finishes with `FileCorruptError`.  (Before repo commit afd7dc9 the wait
+is closed (`<close/>` arrives) the receiving job finishes with `FileCorruptError`.  (Before repo commit 72eab57 the wait
 never ended: former finding `C19:lost-stanza-hangs-forever`.) -/
 theorem lost_block_waits_for_close_or_timeout (H : List UInt8 → List UInt8) (bsS bsR : Nat) (hash : Option (List UInt8))
     (data : List UInt8) (hb : 0 < bsS) (hle : bsS ≤ bsR) (j : Nat) (hblk : j * bsS < data.length) :
